@@ -308,6 +308,9 @@ fn catalogue(base: usize, doc: &Value) -> Vec<Edit> {
             v.push(e(&format!("{tag}:break-offset-required"), true, &format!("{sp}/breaks"), Set(json!([{"time": {"earliest": 3600.0, "latest": 4000.0}, "duration": 10.0}]))));
             v.push(e(&format!("{tag}:break-exact-required"), true, &format!("{sp}/breaks"), Set(json!([{"time": {"earliest": t(10, 0), "latest": t(10, 30)}, "duration": 10.0}]))));
             v.push(e(&format!("{tag}:break-exact-required-not-a-date"), true, &format!("{sp}/breaks"), Set(json!([{"time": {"earliest": "ten", "latest": t(10, 30)}, "duration": 10.0}]))));
+            v.push(e(&format!("{tag}:break-exact-required-latest-not-a-date"), true, &format!("{sp}/breaks"), Set(json!([{"time": {"earliest": t(10, 0), "latest": "half past ten"}, "duration": 10.0}]))));
+            v.push(e(&format!("{tag}:break-exact-required-reversed"), true, &format!("{sp}/breaks"), Set(json!([{"time": {"earliest": t(10, 30), "latest": t(10, 0)}, "duration": 10.0}]))));
+            v.push(e(&format!("{tag}:break-offset-required-reversed"), false, &format!("{sp}/breaks"), Set(json!([{"time": {"earliest": 4000.0, "latest": 3600.0}, "duration": 10.0}]))));
             v.push(e(&format!("{tag}:break-offset-one-element"), false, &format!("{sp}/breaks"), Set(json!([{"time": [3600.0], "places": [{"duration": 10.0}]}]))));
             v.push(e(&format!("{tag}:break-places-empty"), false, &format!("{sp}/breaks"), Set(json!([{"time": [t(10, 0), t(10, 30)], "places": []}]))));
             v.push(e(&format!("{tag}:break-window-one-element"), true, &format!("{sp}/breaks"), Set(json!([{"time": [t(10, 0)], "places": [{"duration": 10.0}]}]))));
